@@ -529,16 +529,23 @@ class HostConnection(object):
             log.warning("Failed reconnecting %s. Retrying." % (self.host.endpoint,))
             self._session.submit(self._replace, connection)
         else:
+            close_after = False
             with connection.lock:
                 with self._lock:
                     if connection.orphaned_threshold_reached:
-                        if connection.in_flight == len(connection.orphaned_request_ids) or self.is_shutdown:
-                            # (a pool that was shut down meanwhile will not empty its trash again)
+                        if connection.in_flight == len(connection.orphaned_request_ids):
                             connection.close()
+                        elif self.is_shutdown:
+                            # a pool that was shut down meanwhile will not empty its trash again; the
+                            # requests still pending on the connection re-enter this pool when they
+                            # are errored, so it cannot be closed while the pool lock is held
+                            close_after = True
                         else:
                             self._trash.add(connection)
                     self._is_replacing = False
                     self._stream_available_condition.notify()
+            if close_after:
+                connection.close()
 
     def shutdown(self):
         with self._lock:
